@@ -35,7 +35,7 @@ enum {
 	N_NBR_CANCEL_INFLIGHT, N_NBW_WRITE, N_NBW_BYTES, N_NBW_FAILCB, N_NBW_QUEUED_BEHIND, N_NBW_ZERO, N_NBW_FREE_INFLIGHT,
 	N_F_RECV_SHORT, N_F_RECV_EAGAIN, N_F_RECV_EINTR, N_F_RECV_ERR, N_F_SEND_SHORT, N_F_SEND_EAGAIN, N_F_SEND_EINTR,
 	N_F_SEND_ERR, N_F_POLL_EINTR, N_F_POLL_SPUR, N_F_ACCEPT_SOFT, N_F_ALLOC, N_POLLS, N_BLOCKS, N_RUNS, N_REG_FAIL,
-	N_RW_BOTH, N_OVERLAP, N_MANY, N_BINDFAIL
+	N_RW_BOTH, N_OVERLAP, N_MANY, N_BINDFAIL, N_FREE_IN_CB
 };
 const char * const engine_counters[] = {
 	"read_requests", "read_completed", "read_eof", "read_error", "write_requests", "write_completed", "write_error",
@@ -49,7 +49,7 @@ const char * const engine_counters[] = {
 	"fault_recv_short", "fault_recv_eagain", "fault_recv_eintr", "fault_recv_hard_error", "fault_send_short",
 	"fault_send_eagain", "fault_send_eintr", "fault_send_hard_error", "fault_poll_eintr", "fault_poll_spurious",
 	"fault_accept_soft_error", "fault_alloc_failed", "polls", "poll_blocked", "events_run_calls", "probe_request_failed_alloc",
-	"probe_read_and_write_outstanding", "probe_overlapping_request_refused", "probe_more_than_16_requests_outstanding", "fault_bind_failed", NULL
+	"probe_read_and_write_outstanding", "probe_overlapping_request_refused", "probe_more_than_16_requests_outstanding", "fault_bind_failed", "probe_object_freed_inside_its_callback", NULL
 };
 
 #define AF_SINCE(before) (simalloc_failed != (before))
@@ -81,6 +81,7 @@ struct nbr {
 	int chain_n;
 	size_t chain_k;
 	int finished;		/* EOF or error was reported: stream equality no longer asserted */
+	int free_in_cb;		/* the next wait callback frees the reader (as http.c does) */
 	int ncb_for_wait;
 	/* known-finding shape: bytes handed out by the kernel to a wait that was then cancelled */
 	size_t lost_at, lost_n;
@@ -97,6 +98,7 @@ struct nbw {
 	int dead;		/* writer unusable after an allocation failure (only freed) */
 	int wrote_after_fail;
 	int send_error_seen;	/* the transport has failed under this writer */
+	int free_in_failcb;
 	uint8_t * alt;		/* second candidate stream: without the bytes of a write that reported failure (OOM) */
 	size_t alen;
 	int forked;
@@ -110,7 +112,7 @@ struct sockst {
 	struct nbw nbw;
 	/* accept */
 	void * acc_cookie;
-	int acc_live, acc_ncb, acc_last_fd, acc_af;
+	int acc_live, acc_ncb, acc_last_fd, acc_af, acc_rearm;
 	uint64_t rxseed;
 };
 static struct sockst ss[MAXS];
@@ -473,6 +475,8 @@ on_send(struct vsock * vs, const void * buf, long result, int err)
 }
 
 /* ---------- accept ---------- */
+static void issue_accept(int);
+
 static int
 acc_callback(void * cookie, int s)
 {
@@ -493,6 +497,13 @@ acc_callback(void * cookie, int s)
 			sim_viol("C06.acc.result", "bad-fd", "accept callback carried descriptor %d which the kernel did not return from accept", s);
 		/* the application closes it */
 		close(s);
+		if (S->acc_rearm > 0) {
+			S->acc_rearm--;
+			R->cnt[N_CHAIN]++;
+			in_cb = 1;
+			issue_accept((int)(S - ss));
+			in_cb = 0;
+		}
 	} else if (s == -1) {
 		R->cnt[N_ACC_ERR]++;
 		if (!S->vs->recv_err_seen && !AF_SINCE(S->acc_af))
@@ -965,6 +976,19 @@ nbr_callback(void * cookie, int status)
 		N->finished = 1;
 	} else
 		sim_viol("C07.rd.status", "range", "wait callback status %d", status);
+	if (N->free_in_cb) {
+		/* the application is done with the reader and frees it from inside its own callback */
+		N->free_in_cb = 0;
+		R->cnt[N_FREE_IN_CB]++;
+		TR(0x24, 0, 0, "netbuf_read_free from inside the wait callback");
+		LIB_ENTER();
+		netbuf_read_free(N->R);
+		LIB_LEAVE();
+		N->R = NULL;
+		N->finished = 1;
+		CB_LEAVE();
+		return (0);
+	}
 	if (status == 0) {
 		in_cb = 1;
 		if (N->consume_j > 0)
@@ -1018,6 +1042,16 @@ nbw_fail(void * cookie)
 		sim_viol("C07.wr.fail-once", "twice", "the writer's failure callback fired %d times", S->nbw.failed_cb);
 	if (!S->vs->send_err_seen && simalloc_failed == 0)
 		sim_viol("C07.wr.fail-once", "spurious", "the writer's failure callback fired although no send failed and no allocation failed");
+	if (S->nbw.free_in_failcb) {
+		/* the usual reaction to a dead connection: tear the writer down from inside the failure callback */
+		R->cnt[N_FREE_IN_CB]++;
+		TR(0x34, 0, 0, "netbuf_write_free from inside the failure callback");
+		LIB_ENTER();
+		netbuf_write_free(S->nbw.W);
+		LIB_LEAVE();
+		S->nbw.W = NULL;
+		S->nbw.dead = 1;
+	}
 	CB_LEAVE();
 	return (0);
 }
@@ -1264,6 +1298,10 @@ finish(void)
 				ss[i].vs->backlog++;
 		for (k = 0; k < lim && outstanding() > 0; k++) {
 			int before = outstanding();
+
+			for (i = 0; i < nss; i++)
+				if (ss[i].kind == 1 && ss[i].acc_live && ss[i].vs->backlog == 0)
+					ss[i].vs->backlog++;	/* (an accept re-armed from its callback needs another client) */
 
 			if (run_loop(1, NULL) != 0)
 				break;
@@ -1566,7 +1604,7 @@ engine_gen(struct plan * P, uint64_t seed, struct prng * g)
 			unsigned x = prng_n(g, 100);
 
 			if (x < 40)
-				plan_add(P, "step", "accept", 1, (int64_t)0);
+				plan_add(P, "step", "accept", 2, (int64_t)0, (int64_t)(prng_chance(g, 40) ? 1 + prng_n(g, 3) : 0));
 			else if (x < 48)
 				plan_add(P, "step", "cancel_accept", 1, (int64_t)0);
 			else {
@@ -1590,8 +1628,8 @@ engine_gen(struct plan * P, uint64_t seed, struct prng * g)
 				size_t k = prng_chance(g, 50) ? sizes_k[prng_n(g, sizeof(sizes_k) / sizeof(sizes_k[0]))] : prng_n(g, 6000);
 				size_t ck = prng_chance(g, 50) ? sizes_k[prng_n(g, 12)] : prng_n(g, 6000);
 
-				plan_add(P, "step", "nbr_wait", 5, (int64_t)0, (int64_t)k, (int64_t)(prng_chance(g, 60) ? prng_n(g, 9000) : 0),
-				    (int64_t)(prng_chance(g, 40) ? 1 + prng_n(g, 4) : 0), (int64_t)ck);
+				plan_add(P, "step", "nbr_wait", 6, (int64_t)0, (int64_t)k, (int64_t)(prng_chance(g, 60) ? prng_n(g, 9000) : 0),
+				    (int64_t)(prng_chance(g, 40) ? 1 + prng_n(g, 4) : 0), (int64_t)ck, (int64_t)prng_chance(g, 4));
 			} else if (x < 45)
 				plan_add(P, "step", "nbr_peek", 1, (int64_t)0);
 			else if (x < 60)
@@ -1610,7 +1648,7 @@ engine_gen(struct plan * P, uint64_t seed, struct prng * g)
 		gen_stream_script(g, l, 0, faulty);
 		l = plan_add(P, "tape", "0", 1, (int64_t)1);
 		gen_tape(g, l, (int)prng_n(g, 40), pe, pi, ps, perr);
-		plan_add(P, "step", "nbw_init", 1, (int64_t)0);
+		plan_add(P, "step", "nbw_init", 2, (int64_t)0, (int64_t)prng_chance(g, 35));
 		if (prng_chance(g, 25)) {
 			/* several buffers queued, the transport fails, the application keeps using the writer */
 			plan_add(P, "step", "nbw_write", 2, (int64_t)0, (int64_t)(4097 + prng_n(g, 9000)));
@@ -1785,6 +1823,7 @@ engine_run(const struct plan * P)
 		} else if (!strcmp(l->name, "cancel")) {
 			cancel_req(si, (int)arg(l, 1, 1));
 		} else if (!strcmp(l->name, "accept")) {
+			ss[si].acc_rearm = (int)arg(l, 1, 4);
 			issue_accept(si);
 		} else if (!strcmp(l->name, "cancel_accept")) {
 			if (ss[si].acc_live) {
@@ -1807,6 +1846,8 @@ engine_run(const struct plan * P)
 				ss[si].nbr.consumed = ss[si].nbr.seen_end = ss[si].vs->rxpos;
 			}
 		} else if (!strcmp(l->name, "nbr_wait")) {
+			if (ss[si].nbr.R != NULL && !ss[si].nbr.waiting)
+				ss[si].nbr.free_in_cb = (int)arg(l, 5, 1);
 			nbr_wait(&ss[si], arg(l, 1, 400000), arg(l, 2, 1 << 20), (int)arg(l, 3, 8), arg(l, 4, 400000));
 		} else if (!strcmp(l->name, "nbr_peek")) {
 			if (ss[si].nbr.R != NULL && !ss[si].nbr.waiting)
@@ -1824,6 +1865,7 @@ engine_run(const struct plan * P)
 				LIB_ENTER();
 				ss[si].nbw.W = netbuf_write_init(ss[si].vs->fd, nbw_fail, &ss[si]);
 				LIB_LEAVE();
+				ss[si].nbw.free_in_failcb = (int)arg(l, 1, 1);
 				if (ss[si].nbw.W == NULL && !AF_SINCE(f0))
 					sim_viol("C07.wr.discard", "init-null", "netbuf_write_init failed without an allocation failure");
 			}
